@@ -75,6 +75,10 @@ def run(chk):
                         % (k, d, narrower[0], selft, op, rhs, out), classes[k]['file'], fdef.lineno)
             else:
                 chk.ok('C26-wrap', inst, sample='%s -> %s.%s wraps in %s' % (inst, k, d, sorted(wraps) or 'nothing'))
+    # no Nat instance is ever negative: the guard rule over the dunders of the value-constrained runtime classes (same engine as C02-wrap)
+    from sa.props import c02
+    chk.rule('C26-guard', 'no runtime dunder of a value-constrained class (Nat, Nat!) narrows a possibly negative result into that class without a guard (shared with C02-wrap)')
+    c02.wrap_rules(chk, 'C26-guard')
     return ('The declared operator table is extracted from the typed HIR of Context::init_builtin_classes and checked against an abstract (sign / integrality) semantics of Python\'s '
             'arithmetic, and against the wrapper classes applied by the runtime dunder found through the Python MRO (python ast). Numeric agreement with the Python built-ins '
             'for concrete operands is not decided.'), {}
